@@ -125,12 +125,15 @@ class Client:
             buf = self.__read_buffer[:limit]
             self.__read_buffer = self.__read_buffer[limit:]
             size -= limit
-        if not size:
-            return buf
-        try:
-            buf += self.sock.recv(size)
-        except (socket.timeout, ssl.SSLError):
-            raise Error("Failed to read %d bytes from the server" % size)
+        while size > 0:
+            try:
+                nval = self.sock.recv(size)
+            except (socket.timeout, ssl.SSLError):
+                raise Error("Failed to read %d bytes from the server" % size)
+            if not len(nval):
+                raise Error("Connection closed by server")
+            buf += nval
+            size -= len(nval)
         self.__dprint(buf)
         return buf
 
